@@ -187,6 +187,20 @@ func (fg *FG) block(b *ssa.BasicBlock, pkg *types.Package) {
 			}
 			st.heaps[f] = fg.define("H."+f, fg.heapSort[f], cur)
 		}
+		if len(incs) > 1 {
+			mi := &mergeInfo{entry: map[string]string{}}
+			for f, t := range st.heaps {
+				mi.entry[f] = t
+			}
+			for _, i := range incs {
+				mi.preds = append(mi.preds, i.p.Index)
+				mi.conds = append(mi.conds, i.cond)
+			}
+			if fg.merges == nil {
+				fg.merges = map[int]*mergeInfo{}
+			}
+			fg.merges[b.Index] = mi
+		}
 		// phis
 		phiIn := map[*ssa.Phi]Val{}
 		for _, in := range b.Instrs {
@@ -323,11 +337,35 @@ func (fg *FG) invStep(p, h *ssa.BasicBlock, st *State, pkg *types.Package) {
 		fg.vals[phi] = Val{T: v.T, Ty: phi.Type(), Clo: v.Clo}
 	}
 	cond := smtOr(fg.edgeConds(p, h))
-	env := fg.envAt(st, pkg, fg.localResolver(h, st))
 	cb := fg.curBlock
-	for k, inv := range invs {
-		t := env.tr(inv.E)
-		fg.oblig("inv-step", fmt.Sprintf("inv-step:loop%d#%s@b%d", ord, clauseName(inv, k), p.Index), inv.Tag, cond, t.T, inv.Src, fmt.Sprintf("%s:%d", inv.File, inv.Line))
+	// a latch that only joins several paths (it writes no memory itself): the invariant is checked in
+	// the state of each incoming path separately, which keeps the goal free of if-then-else heaps
+	type pathSt struct {
+		st   *State
+		cond string
+		sfx  string
+	}
+	paths := []pathSt{{st, cond, ""}}
+	if mi := fg.merges[p.Index]; mi != nil && sameHeaps(mi.entry, st.heaps) {
+		paths = nil
+		for i, pb := range mi.preds {
+			ps := fg.endSt[pb].clone()
+			for f, t := range st.heaps {
+				if _, ok := ps.heaps[f]; !ok && mi.entry[f] == t {
+					if _, declared := fg.endSt[pb].heaps[f]; !declared {
+						ps.heaps[f] = "H0." + f
+					}
+				}
+			}
+			paths = append(paths, pathSt{ps, fmt.Sprintf("(and %s %s)", cond, mi.conds[i]), fmt.Sprintf("<b%d", pb)})
+		}
+	}
+	for _, pth := range paths {
+		env := fg.envAt(pth.st, pkg, fg.localResolver(h, pth.st))
+		for k, inv := range invs {
+			t := env.tr(inv.E)
+			fg.oblig("inv-step", fmt.Sprintf("inv-step:loop%d#%s@b%d%s", ord, clauseName(inv, k), p.Index, pth.sfx), inv.Tag, pth.cond, t.T, inv.Src, fmt.Sprintf("%s:%d", inv.File, inv.Line))
+		}
 	}
 	fg.curBlock = cb
 	for phi, v := range saved {
@@ -371,6 +409,24 @@ func (fg *FG) invStep(p, h *ssa.BasicBlock, st *State, pkg *types.Package) {
 			fg.oblig("inv-step", fmt.Sprintf("step:loop%d#%s@b%d", ord, clauseName(sc, k), p.Index), sc.Tag, cond, tv.T, sc.Src, fmt.Sprintf("%s:%d", sc.File, sc.Line))
 		}
 	}
+}
+
+type mergeInfo struct {
+	entry map[string]string
+	preds []int
+	conds []string
+}
+
+func sameHeaps(a, b map[string]string) bool {
+	if len(a) != len(b) {
+		return false
+	}
+	for k, v := range a {
+		if b[k] != v {
+			return false
+		}
+	}
+	return true
 }
 
 // havocLoop gives fresh versions to every heap family the loop body may write.
@@ -782,25 +838,40 @@ func (fg *FG) ret(b *ssa.BasicBlock, st *State, t *ssa.Return, pkg *types.Packag
 		*fg.inlineRets = append(*fg.inlineRets, inlineRet{guard: fg.R[b.Index], results: rs, st: st})
 		return
 	}
-	env := fg.envAt(st, pkg, nil)
-	for i, rv := range t.Results {
-		v := fg.val(rv)
-		if v.Loc != nil && v.T == "" {
-			fg.fail("interior address returned")
-		}
-		if i < len(fg.results) {
-			env.vars[fg.results[i]] = Val{T: v.T, Ty: fg.fn.Signature.Results().At(i).Type(), Clo: v.Clo}
-			if len(t.Results) == 1 {
-				env.vars["result"] = env.vars[fg.results[i]]
-			}
-		}
-	}
 	fg.retCount++
 	ord := fg.retOrdinal(t)
 	label := fmt.Sprintf("ret%d:L%d", ord, fg.g.fset.Position(t.Pos()).Line)
-	for k, q := range fg.c.Ensures {
-		tv := env.tr(q.E)
-		fg.oblig("post", fmt.Sprintf("post:%s@%s", clauseName(q, k), label), q.Tag, fg.R[b.Index], tv.T, q.Src, fmt.Sprintf("%s:%d", q.File, q.Line))
+	// a return block that only joins several paths: postconditions are checked per incoming path
+	type pathSt struct {
+		st   *State
+		cond string
+		sfx  string
+	}
+	paths := []pathSt{{st, fg.R[b.Index], ""}}
+	if mi := fg.merges[b.Index]; mi != nil && sameHeaps(mi.entry, st.heaps) {
+		paths = nil
+		for i, pb := range mi.preds {
+			paths = append(paths, pathSt{fg.endSt[pb].clone(), fmt.Sprintf("(and %s %s)", fg.R[b.Index], mi.conds[i]), fmt.Sprintf("<b%d", pb)})
+		}
+	}
+	for _, pth := range paths {
+		env := fg.envAt(pth.st, pkg, nil)
+		for i, rv := range t.Results {
+			v := fg.val(rv)
+			if v.Loc != nil && v.T == "" {
+				fg.fail("interior address returned")
+			}
+			if i < len(fg.results) {
+				env.vars[fg.results[i]] = Val{T: v.T, Ty: fg.fn.Signature.Results().At(i).Type(), Clo: v.Clo}
+				if len(t.Results) == 1 {
+					env.vars["result"] = env.vars[fg.results[i]]
+				}
+			}
+		}
+		for k, q := range fg.c.Ensures {
+			tv := env.tr(q.E)
+			fg.oblig("post", fmt.Sprintf("post:%s@%s%s", clauseName(q, k), label, pth.sfx), q.Tag, pth.cond, tv.T, q.Src, fmt.Sprintf("%s:%d", q.File, q.Line))
+		}
 	}
 	if fg.c.DeadRets[ord] {
 		// declared unreachable under the contract: must indeed be unreachable
